@@ -436,6 +436,9 @@ func (x *Exec) lvalueAddr(env *Env, e CExpr) (string, types.Type) {
 				return app("fld", a, fmt.Sprint(si.Tags[i])), st.Field(i).Type()
 			}
 		}
+		if gf := x.w.ghostField(t, n.Name); gf != nil {
+			return app("fld", a, fmt.Sprint(gf.Tag)), gf.T
+		}
 		cfail("modifies: no field %s", n.Name)
 	case *CIndex:
 		v := env.tr(n.X)
@@ -625,6 +628,9 @@ func (x *Exec) calleeEffects(st *State, c *ssa.CallCommon) effects {
 								tag = si.Tags[i]
 							}
 						}
+						if gf := x.w.ghostField(bt, cf.Name); gf != nil {
+							tag = gf.Tag
+						}
 					}
 				}
 			}
@@ -739,6 +745,9 @@ func (x *Exec) lvalueType(fn *ssa.Function, sig *types.Signature, c *ssa.CallCom
 					if st.Field(i).Name() == n.Name {
 						return st.Field(i).Type()
 					}
+				}
+				if gf := x.w.ghostField(t, n.Name); gf != nil {
+					return gf.T
 				}
 			}
 		case *CUnary:
